@@ -60,6 +60,10 @@ func TestMain(m *testing.M) {
 		fmt.Fprintln(os.Stderr, "cannot load findings:", err)
 		os.Exit(2)
 	}
+	if os.Getenv("VERIF_REPLAY_IN") == "" {
+		shard, _ := strconv.Atoi(os.Getenv("VERIF_SHARD"))
+		prehistory(shard)
+	}
 	code := m.Run()
 	if out := os.Getenv("VERIF_OUT"); out != "" {
 		if err := evid.Write(out, propID); err != nil {
